@@ -1,6 +1,7 @@
 package main
 
 import (
+	"verif/harness/refpkg"
 	"verif/harness/rt"
 	"verif/harness/srv"
 )
@@ -256,6 +257,54 @@ func catalogue() []response {
 	r.add("pkg", srv.RowFmt(false, nr...))
 	r.add("pkg", srv.Data(srv.TokRow, nr, vals(srv.I16(300), []byte("narrow"))))
 	r.add(done(0, 1))
+
+	// ---- packages encoded with the second reference codec (refpkg)
+	r = mk("text-pointer-rows")
+	tf := refpkg.Format{Tok: refpkg.TokRowFmt2, Cols: []refpkg.Column{
+		{Name: "t", DataType: 0x23, MaxLen: 0x7fffffff, ObjName: "db.dbo.tab", Label: "t"},
+		{Name: "i", DataType: 0x22, MaxLen: 0x7fffffff, ObjName: "db.dbo.tab"},
+		{Name: "u", DataType: 0xAE, MaxLen: 0x7fffffff, ObjName: "db.dbo.tab"},
+		{Name: "x", DataType: 0xA3, MaxLen: 0x7fffffff, ObjName: "db.dbo.tab"},
+		{Name: "n", DataType: 0x38},
+	}}
+	ptr := []byte{1, 2, 3, 4, 5, 6, 7, 8, 9, 10, 11, 12, 13, 14, 15, 16}
+	ts := []byte{0, 0, 0, 0, 0, 0, 0x12, 0x34}
+	r.add("pkg", tf.Encode())
+	r.add("pkg", refpkg.Row{Tok: refpkg.TokRow, Fmt: tf, Cells: []refpkg.Cell{
+		{TxtPtr: ptr, TimeStamp: ts, Data: []byte("some text value")},
+		{TxtPtr: ptr, TimeStamp: ts, Data: []byte{0xff, 0xd8, 0xff, 0xe0, 0, 1}},
+		{TxtPtr: ptr, TimeStamp: ts, Data: []byte{0x48, 0, 0xe4, 0, 0x3d, 0xd8, 0, 0xde}},
+		{TxtPtr: ptr, TimeStamp: ts, Data: []byte("<a b='1'/>")},
+		{Data: srv.I32(1)},
+	}}.Encode())
+	r.add("pkg", refpkg.Row{Tok: refpkg.TokRow, Fmt: tf, Cells: []refpkg.Cell{
+		{TextNull: true}, {TextNull: true}, {TxtPtr: ptr, TimeStamp: ts, Data: nil}, {TextNull: true}, {Data: srv.I32(2)},
+	}}.Encode())
+	r.add(done(srv.DoneCount, 2))
+
+	r = mk("legacy-error-token")
+	r.add("pkg", refpkg.ErrorMsg{Number: 911, State: 2, Class: 11, Msg: "Attempt to locate entry in sysdatabases failed", Server: "ASE1", Proc: "sp_x", Line: 7}.Encode())
+	r.add(done(srv.DoneError, 0))
+
+	r = mk("orderby-rows")
+	oc := []srv.Col{colI4, colVC}
+	r.add("pkg", srv.RowFmt(true, oc...))
+	r.add("pkg", refpkg.OrderBy2{Cols: []uint16{2, 1}}.Encode())
+	r.add("pkg", srv.Data(srv.TokRow, oc, vals(srv.I32(9), []byte("ordered"))))
+	r.add(done(0, 1))
+
+	r = mk("orderby-narrow-rows")
+	r.add("pkg", srv.RowFmt(false, srv.Col{Name: "a", Type: srv.TInt4}))
+	r.add("pkg", refpkg.OrderBy{Cols: []byte{1}}.Encode())
+	r.add("pkg", srv.Data(srv.TokRow, []srv.Col{{Type: srv.TInt4}}, vals(srv.I32(5))))
+	r.add(done(0, 1))
+
+	r = mk("cursor-info-dynamic-ack")
+	r.add("pkg", refpkg.CurInfo{Wide: false, Cursor: refpkg.Cursor{ID: 7}, Command: 3, Status: 0x20}.Encode())
+	r.add("pkg", refpkg.CurInfo{Wide: true, Cursor: refpkg.Cursor{ID: 7}, Command: 3, Status: 0x20, RowNum: 4, TotalRows: 100, RowCount: 10}.Encode())
+	r.add("pkg", refpkg.Dynamic{Wide: false, Type: 0x20, Status: 0, ID: "stm1"}.Encode())
+	r.add("pkg", refpkg.Dynamic{Wide: true, Type: 0x20, Status: 0, ID: "stm2"}.Encode())
+	r.add(done(0, 0))
 
 	return out
 }
